@@ -42,7 +42,7 @@ Section Expr.
   | IExpr (e : expr) (name : string).   (* name = alias, or the column's last path component *)
 
   Inductive jointype := JInner | JLeft | JRight.
-  Inductive jstrategy := SAuto | SHash | SStraight | SParallel | SParallelHash.
+  Inductive jstrategy := SAuto | SHash | SStraight | SParallel | SParallelHash | SParallelStraight.
 
   Inductive from_clause :=
   | FDual
